@@ -8,6 +8,7 @@ import AcraModel.CrossClient.Keys
 import AcraModel.CrossClient.TlsIdentity
 import AcraModel.CrossClient.TlsServer
 import AcraModel.CrossClient.TlsConn
+import AcraModel.CrossClient.ServerOps
 import AcraModel.Crypto.Shim
 import Driver.C01
 /-! Driver ops for C02: every reveal-type entry point run under a chosen identity of a key store with
@@ -247,8 +248,29 @@ def replayWrites (src : IdSource) (cols : List (String × Option ColSetting)) : 
       | _ => replayWrites src cols n st rest
   | _, _, _ => none
 
+/-- `(connection id, value, token it got)×n`: the Tokenize requests a server world has served so far -/
+def parseSrvTokOps : Nat → List String → Option (List SrvTokOp)
+  | 0, [] => some []
+  | n + 1, conn :: v :: tok :: rest => do
+    let op : SrvTokOp := ⟨← ofHex conn, [], ← ofHex v, 4, [← ofHex tok]⟩
+    pure (op :: (← parseSrvTokOps n rest))
+  | _, _ => none
+
 def handle (op : String) (args : List String) : Option String :=
   match op, args with
+  -- srv.detok handle mode cert forged tok n (conn v tok)×n : Detokenize on the server NewServer builds, over the TLS
+  -- connection of the client holding `cert`, after the listed Tokenize requests (each over the connection `conn`)
+  | "srv.detok", _ :: mode :: rest => do
+      let (cert, rest) ← parseCert rest
+      match rest with
+      | forged :: tok :: n :: rest => do
+        let ops ← parseSrvTokOps (← n.toNat?) rest
+        let conn : ConnId := match extractClientID Sha512.sha512 (← parseMode mode) (some cert) with
+          | .ok id => some id
+          | _ => none
+        let forged ← parseOpt forged
+        pure (outHex (serverCall true "Detokenize" (svcDetokenize C (runSrvTok C "Tokenize" [] ops) 4) .err conn ⟨forged.getD [], ← ofHex tok⟩))
+      | _ => none
   -- px.read handle dialect session col row data ncols cols… nhist (session col value stored)×nhist : a session of a
   -- real proxy selects column `col` of a row that holds `data`; the history says what every earlier write stored
   | "px.read", _ :: dialect :: session :: col :: _ :: data :: ncols :: rest => do
